@@ -1,6 +1,6 @@
 #!/usr/bin/env python3
 """Record, per unit, how many functions Verus checks on the current tree (verified + failed, the canary included) as
-`functions` in spec/units.json. The driver refuses a run that checked fewer (a verifier that died half-way).
+`functions` in spec/units.json, and the form of every loop of the extracted functions as `loop_kinds`. The driver refuses a run that checked fewer (a verifier that died half-way).
 Run on the unchanged tree after every change of a spec unit:  python3 lib/count_functions.py"""
 import json, os, sys
 sys.path.insert(0, os.path.dirname(os.path.abspath(__file__)))
@@ -23,5 +23,8 @@ for name, u in units.items():
     rc, j, diags, raw, dt, cmd = driver.verus(path, extra=list(args))
     res = j["verification-results"]
     u["functions"] = res["verified"] + res["errors"]
-    print(name, u["functions"])
+    # the form of every specified loop on the unchanged tree (`loop`, `while`, `for`, after normalisation): the invariants were
+    # written for this form; a failure in a function whose loops have another form is undecided, not a violation
+    u["loop_kinds"] = mp.get("loop_kinds", {})
+    print(name, u["functions"], len(u["loop_kinds"]), "functions with loops")
 json.dump(units, open(p, "w"), indent=1)
